@@ -427,6 +427,8 @@ def gen_meta(rng, name, tier):
         c = rng.random()
         k1 = rng.randint(0, N // 2)
         k2 = rng.randint(k1, N // 2)
+        if rng.random() < 0.3:      # degenerate bands: DC only, a single bin, the top bin, everything
+            k1, k2 = rng.choice([(0, 0), (0, 0), (1, 1), (N // 2, N // 2), (0, N // 2), (0, 1), (max(N // 2 - 1, 0), N // 2)])
         if c < 0.2:
             pass                                        # no band
         elif c < 0.75:                                  # edges strictly between bins
@@ -530,6 +532,9 @@ CORPUS = [
     {'call': 'SpectralAnalyzer.spectrum_fourier/real', 'n': 5, 'N': 5, 'Fs': f2x(10.0), 'unit': 's', 'dseed': 0},
     {'call': 'GrangerAnalyzer.frequencies', 'n': 64, 'N': 4, 'Fs': f2x(1.0), 'unit': 's', 'dseed': 0, 'with_values': True},
     {'call': 'FilterAnalyzer.filtered_fourier', 'n': 9, 'N': 9, 'Fs': f2x(9.0), 'unit': 's', 'lb': f2x(1.5), 'ub': f2x(3.2), 'dseed': 0},
+    # band below the first non-zero bin: only DC survives (seeded change C05-1: an empty slice [1:0] kept everything)
+    {'call': 'FilterAnalyzer.filtered_fourier', 'n': 25, 'N': 25, 'Fs': f2x(0.5), 'unit': 's', 'lb': f2x(0.0), 'ub': f2x(0.015), 'dseed': 0},
+    {'call': 'FilterAnalyzer.filtered_fourier', 'n': 16, 'N': 16, 'Fs': f2x(8.0), 'unit': 'ms', 'lb': f2x(0.0), 'ub': f2x(0.3), 'dseed': 0},
 ]
 
 
